@@ -455,24 +455,23 @@ class MRunner:
 
 
 def gen_mprog(rng, nops):
+    """model-level histories over trees of TensorDicts (lazy stacks are covered by the oracle streams and by the Coq witnesses
+    replayed there: their traversals issue memoised calls across nodes that the model does not transcribe)"""
     from .c06 import gen_spec
-    r = rng.random()
-    if r < 0.6:
-        spec = gen_spec(rng, "clean")
-    elif r < 0.8:
-        spec = gen_spec(rng, "dirty")
-        spec["lock"] = rng.choice(["lock_", "memmap_"])
-    else:
-        spec = gen_spec(rng, "lazyroot")
-    if rng.random() < 0.15:
-        spec["lock"] = "none"
+    while True:
+        spec = gen_spec(rng, "clean" if rng.random() < 0.6 else "dirty")
+        if "lazy" not in json.dumps(spec):
+            break
+    spec["lock"] = rng.choice(["lock_", "lock_", "lock_", "memmap_", "none"])
     ops = []
-    kinds = ["read"] * 10 + ["inplace"] * 3 + ["lock", "unlock", "unlock", "lock", "set", "set", "setnode", "del", "promote", "promote", "makememmap",
+    kinds = ["read"] * 12 + ["inplace"] * 3 + ["lock", "unlock", "unlock", "lock", "set", "set", "setnode", "del", "promote", "promote", "makememmap",
                                                  "memmap", "names", "bs", "gc"]
+    palette = [rng.randrange(0, 64) for _ in range(rng.choice([3, 5, 8]))]     # few distinct read forms per history: hits happen
+    nodes = [0, 0, rng.randrange(0, 7), rng.randrange(0, 7)]
     for _ in range(nops):
         k = rng.choice(kinds)
-        ops.append({"op": k, "node": rng.randrange(0, 7) if rng.random() < 0.6 else 0, "which": rng.randrange(0, 64), "leaf": rng.randrange(0, 9),
-                    "v": rng.randrange(1, 9), "sem": rng.randrange(0, 2), "reuse": rng.randrange(0, 6), "lazy_read": rng.random() < 0.5})
+        ops.append({"op": k, "node": rng.choice(nodes), "which": rng.choice(palette) if k == "read" else rng.randrange(0, 64), "leaf": rng.randrange(0, 9),
+                    "v": rng.randrange(1, 9), "sem": rng.randrange(0, 2), "reuse": rng.randrange(0, 6), "lazy_read": False})
     return {"spec": spec, "ops": ops, "stream": "model"}
 
 
@@ -555,6 +554,7 @@ def correspondence(R, procs):
                        {k: v for k, v in d.items() if k != "model"}, d.get("model"))
     R.extra["model_hits_compared"] = nhit
     R.extra["model_stale_hits_predicted_and_observed"] = nstale
+    R.extra["model_histories"] = len(keep)
 
 
 def replay(prog):
